@@ -63,10 +63,12 @@ std::string builder_state(ParserBuilder* pb, bool fine)
             auto& top = eb->fragments.data.back();
             s += top.empty() ? "|e" : std::string("|") + kind_name(top.get_kind());
         }
+#ifdef UTAPV_M_typeFragments
         s += " T" + std::to_string(eb->typeFragments.data.size());
         if (fine)
             for (auto& t : eb->typeFragments.data)
                 s += "|" + type_sexpr(t);
+#endif
         // frame chain: sizes (and names when fine)
         std::stack<frame_t> fs = eb->frames;
         s += " R" + std::to_string(fs.size());
@@ -90,22 +92,36 @@ std::string builder_state(ParserBuilder* pb, bool fine)
                 }
             }
         }
+        // (private members are read through -fno-access-control; one that a tree does not have is left out of the digest)
+#ifdef UTAPV_M_currentTemplate
         s += " ct=" + std::string(eb->currentTemplate ? eb->currentTemplate->uid.get_name() : "-");
+#endif
+#ifdef UTAPV_M_scalar_count
         s += " sc=" + std::to_string(eb->scalar_count);
+#endif
         if (auto* sb = dynamic_cast<StatementBuilder*>(pb)) {
+#ifdef UTAPV_M_params
             s += " P" + std::to_string(sb->params == frame_t() ? -1 : (int)sb->params.get_size());
             if (fine && !(sb->params == frame_t()))
                 for (uint32_t i = 0; i < sb->params.get_size(); ++i)
                     s += "," + sb->params[i].get_name() + ":" + type_sexpr(sb->params[i].get_type());
+#endif
+#ifdef UTAPV_M_blocks
             s += " B" + std::to_string(sb->blocks.size());
             if (fine)
                 for (auto& b : sb->blocks)
                     s += "|" + stmt_sexpr(b.get(), o);
+#endif
+#if defined(UTAPV_M_fields) && defined(UTAPV_M_labels)
             s += " fl" + std::to_string(sb->fields.size()) + "/" + std::to_string(sb->labels.size());
+#endif
+#ifdef UTAPV_M_currentFun
             s += " cf=" + std::string(sb->currentFun ? sb->currentFun->uid.get_name() : "-");
+#endif
         }
         if (auto* db = dynamic_cast<DocumentBuilder*>(pb)) {
             int ei = -1;
+#if defined(UTAPV_M_currentEdge) && defined(UTAPV_M_currentTemplate)
             if (db->currentEdge && db->currentTemplate) {
                 int k = 0;
                 for (auto& e : db->currentTemplate->edges) {
@@ -116,10 +132,14 @@ std::string builder_state(ParserBuilder* pb, bool fine)
                 if (ei < 0)
                     ei = -2;  // points somewhere else
             }
+#endif
             s += " ce=" + std::to_string(ei);
+#if defined(UTAPV_M_currentQuery) && defined(UTAPV_M_currentExpectation) && defined(UTAPV_M_currentGantt) && \
+    defined(UTAPV_M_currentIODecl) && defined(UTAPV_M_currentProcPriority)
             s += " cq=" + std::string(db->currentQuery ? "1" : "0") + (db->currentExpectation ? "x" : "") +
                  (db->currentGantt ? "g" : "") + (db->currentIODecl ? "i" : "") + " pp=" +
                  std::to_string(db->currentProcPriority);
+#endif
         }
         // document summary
         Document& d = eb->document;
